@@ -29,6 +29,12 @@ def gen(ctx):
         for r in modes(n):
             cs.add('req', w, r, 1024, 'all')
     n_skel = len(cs)
+    # (i') the bounded domain of MC_RequestHead (all token sequences up to 3 (thorough: 4) tokens), every split point, both modes
+    for w in H.token_sequences(H.spec_tokens('MC_RequestHead'), 4 if ctx.thorough else 3):
+        for r in (0, 1):
+            cs.add('req', w, r, 1024, 'all')
+    n_tok = len(cs) - n_skel
+    n_skel = len(cs)
     # (ii) request_header_max_size lattice: every limit from 1 to a little beyond the input, every split point
     for w in BASES[:6] if not ctx.thorough else BASES:
         for lim in range(1, len(w) + 16, 1 if ctx.thorough else 2):
@@ -56,7 +62,7 @@ def gen(ctx):
             w = H.random_mutant(rnd, w, 2)
         lim = rnd.choice((4096, 65536, len(w), len(w) + 1, len(w) - 1, len(tgt) + 16, 64))
         cs.add('req', w, rnd.choice((0, 1)), max(1, lim), H.random_cuts(rnd, len(w), 8))
-    return cs, {'skeleton': n_skel, 'limit_lattice': n_lim, 'byte_mutations': n_mut, 'random_and_large': len(cs) - n_skel - n_lim - n_mut, 'skeleton_k': k}
+    return cs, {'skeleton': n_skel - n_tok, 'mc_token_domain': n_tok, 'limit_lattice': n_lim, 'byte_mutations': n_mut, 'random_and_large': len(cs) - n_skel - n_lim - n_mut, 'skeleton_k': k}
 
 
 def run_class(o, r):
@@ -133,7 +139,7 @@ def run(ctx):
     for o in (outs[0], outs[len(outs) // 3], outs[-1]):
         ctx.sample({'input': bytes(o['in'])[:100].decode('latin-1'), 'relaxed': o['relaxed'], 'limit': o['limit'], 'runs': len(o['runs']),
                     'first_run_cuts': (o['runs'][0]['cuts'][:8] if o['runs'] else []), 'one_shot': H.tuple_text(o['tuples'][o['one']])})
-    ctx.cov['rule'] = ('request skeleton with at most k deviating slots, request_header_max_size lattice (every limit up to input length + 15), single-byte '
+    ctx.cov['rule'] = ('request skeleton with at most k deviating slots, every token sequence of the MC_RequestHead domain up to 3 (thorough: 4) tokens, request_header_max_size lattice (every limit up to input length + 15), single-byte '
                        'mutations of valid heads, seeded random mutants: each delivered at every 2-way split point and one byte at a time; large heads '
                        '(up to ~10 KiB, limits 64..65536) at 8 random 2..5-way segmentations. evaluations = parser runs (one-shot + segmented). '
                        'non-trivial distinct case = distinct (input, mode, limit) with at least one segmented run whose one-shot outcome is a decision.')
